@@ -121,6 +121,20 @@ class EvalMixin:
         else:
             v = SV("obj", g, h=None)
         st.globals_seen[key] = v
+        for fact in SP.MODULE_FACTS.get(key, []):
+            self.assumptions.add("module initialisation fact %s: %s (cross-checked natively)" % (key, fact))
+            ss = st.copy()
+            ss.spec = True
+            fid = ss.new_frame(None, self.modpath(st))
+            ss.frames[fid]["X"] = v
+            ss.fid = fid
+            t = self.truth(ss, self.ev1(SP.parse_expr(fact), ss))
+            for extra in ss.pc[len(st.pc):]:
+                st.pc.append(extra)
+            for nm, arr in ss.heap.items():
+                if nm not in st.heap:
+                    st.heap[nm] = arr
+            st.assume(t)
         return v
 
     def module_global(self, st, path, name, depth=0):
